@@ -16,17 +16,20 @@ from env import NOW, SP_ID, SP_ACS_POST, SP_ACS_REDIRECT
 from saml2_tophat.saml import SCM_BEARER
 
 CLAIM = {
-    "text": "Coq theorems (Props/C05.v) over the model of the SP response pipeline (Model/Response.v: _parse_response, loads, verify, _assertion, condition_ok, for_me, get_subject, _bearer_confirmed, verify_recipient) for every response content, signature state, clock and configuration: unless unsolicited responses are allowed an accepted response's InResponseTo is an outstanding request and every confirmation of its plain assertions names that request; an accepted browser-binding response's Destination matches the pattern / is an own endpoint; with conversation info every retained confirmation's Recipient is the entity id or an own endpoint; every audience restriction of every accepted assertion names the SP (proved for the configuration where the code checks it; the two deviations of the unchanged code are refuted with witnesses and listed as known findings unless repaired). Tie: the whole cross product of the quantifier (and its neighbours: two outstanding requests, endpoint-less binding) on implementation and model every run.",
-    "note": "Trusted: Coq kernel + vm_compute; the hand-written pipeline model is tied to the code by the exhaustive cross-product correspondence at accept/reject + returned-observables granularity; the regular-expression engine is an oracle input (re.search verdict); responses with <Advice> are outside the model; signatures are irrelevant here (unsigned path, proved independent).",
+    "text": "Coq theorems (Props/C05.v) over the model of the SP response pipeline (Model/Response.v: _parse_response, loads, verify, _assertion, condition_ok, for_me, get_subject, _bearer_confirmed, verify_recipient) and of where its return addresses come from (Model/Endpoints.v: Config.endpoint, Base.service_urls, asynchop choice, parse_authn_request_response with an ARBITRARY assertion_consumer_service table and arriving binding), for every response content, signature state, clock and configuration: unless unsolicited responses are allowed an accepted response's InResponseTo is an outstanding request and every retained confirmation of its plain and decrypted assertions names that request; service_urls hands out exactly the urls registered for the binding; an accepted browser-binding response's Destination matches the pattern or is registered for THAT binding (an own endpoint of another binding, a foreign url, any url when the SP has no endpoint for the binding is refused); with conversation info every retained confirmation's Recipient is the entity id or registered for that binding; the same for the n-th call of any history of calls on one SP; every audience restriction of every accepted assertion names the SP (the two deviations of the earlier code are refuted with witnesses, repaired by fix: commits). Tie: the cross product of the quantifier, 18 endpoint tables x arriving binding x Destination / Recipient kinds x pattern x conv info, confirmation layouts x plain / encrypted / multi-assertion delivery x outstanding-request variants on long-lived SP objects, and call histories on fresh SP objects, implementation vs model every run.",
+    "note": "Trusted: Coq kernel + vm_compute; the hand-written pipeline model is tied to the code by the exhaustive cross-product correspondence at accept/reject + returned-observables granularity; the regular-expression engine is an oracle input (re.search verdict); responses with <Advice> and attribute-query responses are outside the model; signatures are irrelevant here (unsigned path, proved independent).",
     "technique": "machine-checked proof (Coq) + exhaustive cross-product correspondence + implementation-level oracle",
 }
-TRUSTED = ["modelled: the SP response pipeline of response.py / entity.py as Model/Response.v (see its header); not modelled: Advice, EncryptedID, holder-of-key extension parsing beyond 'has KeyInfo'",
+TRUSTED = ["modelled: the SP response pipeline of response.py / entity.py as Model/Response.v, Config.endpoint / Base.service_urls as Model/Endpoints.v (see their headers); not modelled: attribute-query responses, Advice, EncryptedID, holder-of-key extension parsing beyond 'has KeyInfo'",
            "re.search on the destination pattern is computed by Python and passed to the model as dest_regex_match"]
 ASSUMPTIONS = ["the response arrives over a browser binding unless the cell says SOAP", "regex verdict supplied per case"]
 RULE = ("cells = InResponseTo{match,other-outstanding,unknown,absent} x SCD-InResponseTo{match,other-outstanding,unknown,absent} x Destination{own,foreign,absent} "
         "x audience layouts (9) x Recipient{own,entity-id,foreign} x allow_unsolicited x conv-info{none,entity,entity+addr} x pattern{unset,matching,non-matching} "
         "x binding{post, redirect with and without an endpoint} x shape{single confirmation, data-less confirmation first, two confirmations, encrypted assertion}; non-trivial = every cell (each differs in at least one addressing input); quick tier samples the "
-        "product by a covering design (every pair of factor values), thorough runs it whole")
+        "product by a covering design (every pair of factor values), thorough runs it whole.  Per-binding part (c05gen.py): service_urls for 18 ACS tables x 5 bindings (whole); "
+        "block D = tables x arriving {post,redirect,artifact} x Destination {P,R,A,bare,foreign,near-miss,absent} x pattern (whole); block R = tables x arriving x Recipient (6) x conv-info (3) x {plain,encrypted} "
+        "(whole for the 10 small tables); block S = irt x scd x allow_unsolicited x confirmation layout (5) x delivery {plain,encrypted,plain+encrypted, 3 multi-assertion} x outstanding variant (4) "
+        "(whole for the first two variants); 700 random cells; 60 histories of 6 calls on a fresh SP object; non-trivial = distinct cell / history")
 
 AUD_LAYOUTS = {
     "none": [], "me": [[SP_ID]], "other": [["https://other.example.org/sp"]],
@@ -260,12 +263,30 @@ def run(ctx):
 def replay(ctx, payload):
     env.tool_inprocess(True)
     cell = payload.get("input")
+    if cell is None and isinstance(payload.get("case"), dict):
+        cell = payload["case"].get("show")
     print("replay cell:", cell)
-    if not isinstance(cell, dict) or "irt" not in cell:
-        return 0
     with env.Clock(NOW):
-        case, spec = build(cell)
-        xml = pipeline.build_xml(spec)
-        _, ids = pipeline.case_coq(case, spec, NOW)
-        print("implementation outcome:", pipeline.run_impl(case, xml, ids))
+        if isinstance(cell, dict) and cell.get("kind") == "urls":
+            sp = G.SPCaseE(layout=cell["layout"]).sp()
+            print("implementation: service_urls(%s) = %r on table %r" % (cell["binding"], sp.service_urls(G.BIND[cell["binding"]]), G.table_conf(cell["layout"])))
+        elif isinstance(cell, dict) and "call" in cell and "layout" in cell:
+            sp = G.SPCaseE(layout=cell["layout"]).sp()
+            print("implementation: service_urls(%s) = %r on table %r" % (cell["binding"], sp.service_urls(G.BIND[cell["binding"]]), G.table_conf(cell["layout"])))
+        elif isinstance(cell, (dict, list)) and (isinstance(cell, list) or "history" in cell or "kind" in cell):
+            # a per-binding cell, or a history (list of cells) on one fresh SP object
+            hist = cell if isinstance(cell, list) else cell.get("history") or [cell]
+            sp = None
+            for c in hist:
+                case, spec = G.build(c)
+                sp = sp or case.fresh_sp()
+                xml = pipeline.build_xml(spec)
+                _, ids = pipeline.response_coq(spec, case.enc_keys)
+                print("call over %-8s table %-5s Destination %-8s Recipient %-7s -> implementation outcome: %r"
+                      % (c["arrive"], c["layout"], c["dest"], c["recip"], G.call_sp(sp, case, xml, ids)))
+        elif isinstance(cell, dict) and "irt" in cell:
+            case, spec = build(cell)
+            xml = pipeline.build_xml(spec)
+            _, ids = pipeline.case_coq(case, spec, NOW)
+            print("implementation outcome:", pipeline.run_impl(case, xml, ids))
     return 0
